@@ -412,7 +412,6 @@ func outLast() any                               { return nil }
 
 //@ func (*Executor).execAnyNode
 //@ props C15 C07
-//@ schematic noE6failure "as in PostgreSQL, a silently failed depth-0 step of .** does not stop the descent; an error object always does (E6-error)"
 //@ ensures [C15] depth-zero: node.First() == 0 ==> ncalls(exec.executeNextItem) == 1 && callarg[any](exec.executeNextItem, "value") == value && callarg[*valueList](exec.executeNextItem, "found") == found
 //@ ensures [C15] no-depth-zero: node.First() != 0 ==> ncalls(exec.executeNextItem) == 0
 //@ atcall executeNextItem assert [C07] forced-lax: exec.ignoreStructuralErrors
